@@ -438,7 +438,19 @@ func genCorpusMut(t *rapid.T) Case {
 	n := rapid.IntRange(1, 2).Draw(t, "nmut")
 	for i := 0; i < n && len(toks) > 1; i++ {
 		j := rapid.IntRange(0, len(toks)-1).Draw(t, "j")
-		switch rapid.IntRange(0, 4).Draw(t, "mut") {
+		switch rapid.IntRange(0, 5).Draw(t, "mut") {
+		case 5:
+			// a number of the query becomes another number: magnitudes, exponents, leading dots, integer extremes
+			var nums []int
+			for ni, tk := range toks {
+				switch tk.Name {
+				case "DecimalInteger", "HexInteger", "OctalInteger", "RegularDecimalReal", "ExponentDecimalReal":
+					nums = append(nums, ni)
+				}
+			}
+			if len(nums) > 0 {
+				toks[nums[rapid.IntRange(0, len(nums)-1).Draw(t, "num")]].Text = rapid.SampledFrom([]string{"1500000.5", "1.7e9", "6.02e23", "1e21", "123456789.125", "1000000.0", "999999.5", ".5", "1e-7", "0.000001", "9007199254740993.0", "9223372036854775807", "1e308", "0x1F", "017", "2.5e-300"}).Draw(t, "numval")
+			}
 		case 4:
 			// text that is no token of the language, put where the rest stays a well-formed query: in front of a
 			// token (n.age != 30), behind the last one (an unterminated quote, a stray sign)
